@@ -9,7 +9,8 @@ K = dict(SEED=1, LOSS=2, DUP=3, DELAY_MIN=4, DELAY_MAX=5, NBIDI=9, NUNI=10, STRE
          READ_MAX=13, READ_MODE=14, NDGRAM=15, DGRAM_SIZE=16, ECHO_BYTES=17, CANCEL=18, END_MODE=19, IDLE_MS=20,
          SEND_WINDOW=24, STREAM_RWND=25, RWND=26, MAX_BIDI=27, MAX_UNI=28, NACCEPTORS=30, WRITE_MODE=31,
          STOPPED_WAIT=32, HANG_OPS=33, SEND_BLOCK=34, DGRAM_SEND_BUF=35, READ_DELAY_US=36, STOP_AT=37,
-         RESET_AT=38, SPURIOUS=39, CLOSE_AT_US=40, IOERR_AFTER=41, IMPLICIT_FINISH=42, STOP_BY_DROP=43, ZRTT=44, STOP_EVERY=45, EARLY_BYTES=46, MAX_TIME=52, KNOWN=902)
+         RESET_AT=38, SPURIOUS=39, CLOSE_AT_US=40, IOERR_AFTER=41, IMPLICIT_FINISH=42, STOP_BY_DROP=43, ZRTT=44, STOP_EVERY=45, EARLY_BYTES=46, RESET_EVERY=47, RECV_RESET_MODE=48, RESET_POLL_DELAY_US=49,
+         RESET_HOLD_US=50, MAX_TIME=52, KNOWN=902)
 KN = {v: k for k, v in K.items()}
 TAGS = {10, 20, 21, 22, 23, 24, 25, 26, 27, 28, 29, 30, 32, 33, 35, 36, 37, 39, 40, 41, 43, 44}
 RULE = ("scripted client/server applications over one connection of the real quinn crate: uni/bidi streams with "
@@ -60,7 +61,7 @@ def gen(rng, n):
             d["SEND_BLOCK"] = rng.choice([50, 300])
         if rng.chance(1, 4):
             d["IMPLICIT_FINISH"] = 1
-        m = rng.below(10)
+        m = rng.below(11)
         if m == 1:      # blocked writers: small windows, slow readers
             d["STREAM_RWND"] = rng.choice([1, 100, 1500, 6000])
             if rng.chance(1, 2):
@@ -125,6 +126,9 @@ def gen(rng, n):
             zr_stop_family(rng, d)
         elif m == 9:    # 0-RTT accepted / rejected (C17): early uni + bidi streams, fresh streams afterwards
             zr_family(rng, d)
+        elif m == 10:   # the sender resets, the receiver learns of it late (received_reset / read error / drop) while its
+            #                 driver is idle; the freed stream's credit must still reach a sender blocked in open_uni
+            reset_credit_family(rng, d)
         if rng.chance(1, 12) and m < 8:
             # the client's socket starts failing: its driver must fail the connection, not just exit
             d["IOERR_AFTER"] = rng.range(3, 40)
@@ -154,6 +158,35 @@ def zr_stop_family(rng, d):
     d["STOPPED_WAIT"] = rng.choice([0, 0, 1])
     d["END_MODE"] = 0
     d.pop("CLOSE_AT_US", None)
+
+
+def reset_credit_family(rng, d):
+    for k2 in ("LOSS", "DUP", "SEND_BLOCK", "IMPLICIT_FINISH", "STOP_AT", "NDGRAM", "HANG_OPS", "CLOSE_AT_US",
+               "RWND", "SEND_WINDOW", "MAX_BIDI", "DGRAM_SEND_BUF", "SPURIOUS"):
+        d.pop(k2, None)
+    d["DELAY_MAX"] = d["DELAY_MIN"]
+    d["NUNI"] = rng.range(3, 5)
+    d["NBIDI"] = 0
+    d["MAX_UNI"] = rng.choice([1, 1, 2])
+    d["RESET_AT"] = rng.choice([0, 1, 1000])
+    d["RESET_EVERY"] = 1
+    d["STREAM_BYTES"] = rng.choice([5000, 20000])
+    d["WRITE_CHUNK"] = rng.choice([700, 4000])
+    d["WRITE_MODE"] = rng.choice([0, 2])
+    d["STOPPED_WAIT"] = 0
+    d["END_MODE"] = 0
+    d["NACCEPTORS"] = rng.choice([1, 2])
+    v = rng.below(4)
+    if v <= 1:      # received_reset() long after the reset arrived, handle kept (past the idle timeout / for a while)
+        d["RECV_RESET_MODE"] = 1
+        d["RESET_POLL_DELAY_US"] = rng.choice([100000, 300000, 1000000])
+        d["RESET_HOLD_US"] = rng.choice([35000000, 35000000, 500000])
+    elif v == 2:    # received_reset() at once, handle dropped right away
+        d["RECV_RESET_MODE"] = 1
+        d["RESET_POLL_DELAY_US"] = 0
+        d["RESET_HOLD_US"] = 0
+    else:           # the reset is learnt through a read error, after a delay
+        d["READ_DELAY_US"] = rng.choice([0, 100000, 300000])
 
 
 def zr_family(rng, d, mode=None):
